@@ -5,12 +5,13 @@ from plasTeX.Packages import report
 def ProcessOptions(options, document): # type: ignore
     report.ProcessOptions(options, document)
     document.context['thesection'].format = '${section}'
-    document.context['theindex'].counter = 'section'
-    document.context['theindex'].level = Environment.SECTION_LEVEL
-    document.context['printindex'].counter = 'section'
-    document.context['printindex'].level = Command.SECTION_LEVEL
-    document.context['bibliography'].counter = 'section'
-    document.context['bibliography'].level = Command.SECTION_LEVEL
+    # The index and the bibliography are sections in an article.  Give this
+    # document its own classes: the ones in the context are shared by every
+    # document processed by the interpreter.
+    for name in ['theindex', 'printindex', 'bibliography']:
+        base = document.context[name]
+        document.context[name] = type(base.__name__, (base,),
+            {'counter': 'section', 'level': Command.SECTION_LEVEL})
 
 class appendix(Command): # type: ignore
 
